@@ -1,0 +1,17 @@
+//go:build verif
+
+// Contracts for govc (contract-based deductive verification, see /verif/DESIGN.md).
+// Comment-only file: it adds no code and is compiled only with -tags verif.
+
+package maintenance
+
+// The first statement of initialisation creates the configured database, on the
+// configured cluster when there is one: the statement text is
+// CREATE DATABASE IF NOT EXISTS `<db>` ON CLUSTER `<cluster>` (no ON CLUSTER part
+// for a single node), and its error is returned.
+//@ func MakeTimeout
+//@   modifies nothing
+//@ iface (github.com/ClickHouse/clickhouse-go/v2.Conn).Exec(ctx, query, args)
+//@   modifies nothing
+//@ func InitDBTry [C18]
+//@   at Conn).Exec creates-the-database-on-the-cluster: arg1 == "CREATE DATABASE IF NOT EXISTS `" + dbName + "` " + (clusterName != "" ? "ON CLUSTER `" + clusterName + "`" : "") + " " + ""
